@@ -526,3 +526,5 @@ pub fn vp8_intra_predict_chroma(
 ) -> (Vec<u8>, Vec<u8>) {
     crate::vp8::verif_intra_predict_chroma(mbw, mbx, mby, chroma_mode, resdata, ubuf, vbuf)
 }
+/// Recording of the parsing side of the real `decode_frame_` (`vp8::verif_parse::record_*`).
+pub use crate::vp8::verif_parse::{decode_frame_traced, trace_start, trace_take, FrameTrace, MbTrace};
